@@ -678,7 +678,7 @@ void carquet_sse_unpack_bools(const uint8_t* input, uint8_t* output, int64_t cou
 
     /* Process 16 bools (2 bytes) at a time */
     for (; i + 16 <= count; i += 16) {
-        int byte_idx = (int)(i / 8);
+        size_t byte_idx = (size_t)(i / 8);
         uint16_t packed;
         memcpy(&packed, input + byte_idx, 2);
 
@@ -706,7 +706,7 @@ void carquet_sse_unpack_bools(const uint8_t* input, uint8_t* output, int64_t cou
 
     /* Handle remaining */
     for (; i < count; i++) {
-        int byte_idx = (int)(i / 8);
+        size_t byte_idx = (size_t)(i / 8);
         int bit_idx = (int)(i % 8);
         output[i] = (input[byte_idx] >> bit_idx) & 1;
     }
